@@ -7,6 +7,8 @@ the root gives that content (when it does not).  Groundwork for C03.
 import DafRel.Lemmas.Commute
 import DafRel.Lemmas.Build
 import DafRel.Spec.Backtrack
+import DafRel.Lemmas.ApplySpec
+import DafRel.Lemmas.ConformSound
 
 namespace DafRel
 
@@ -68,13 +70,6 @@ theorem restrict_local (cur : UOp) (F : Cols) (hreq : cur.columnsRequired.subset
     have hv : ∀ (t : SortTerm), t ∈ ts → ∀ r, t.expr.val (Row.restrict r F) = t.expr.val r :=
       fun t ht r => Expr.val_restrict t.expr r F (sortCols_subset_term ts F hreq t ht)
     exact lexLe_congr ts a _ b _ (fun t ht => hv t ht a) (fun t ht => hv t ht b)
-
-theorem map_restrict_restrict (y : List Row) (c F : Cols) (h : ∀ t, t ∈ c → t ∈ F) :
-    (y.map (fun r => r.restrict F)).map (fun r => r.restrict c) = y.map (fun r => r.restrict c) := by
-  rw [List.map_map]
-  apply List.map_congr_left
-  intro r _
-  exact Row.restrict_restrict r c F h
 
 /-- If a function of a row only looks at the columns `F`, lists that agree on `F` have the same image. -/
 theorem map_of_restrict_eq {β : Type} (g : Row → β) (F : Cols) (x l : List Row)
@@ -455,10 +450,6 @@ theorem bt_step_pending_nonproj (σ : Leaves) (o cur : UOp) (target : Rel) (f : 
   · intro _ _; exact ⟨hrs, hrc⟩
   · rw [Cols.subset_iff]; intro x hx; exact (hrc x).mp hx
 
-theorem Cols.mem_inter (a b : Cols) (t : Tag) : t ∈ a.inter b ↔ t ∈ a ∧ t ∈ b := by
-  unfold Cols.inter
-  simp [List.mem_filter]
-
 /-- The inner call could only partly insert a projection: the reported second operation is applied
 to what it returned, and the result is projected back onto the tree's columns if needed. -/
 theorem bt_step_pending_proj (σ : Leaves) (cols : Cols) (cur : UOp) (target : Rel) (F : Cols) (u : Rel)
@@ -526,14 +517,24 @@ theorem BTok.of_finish {σ : Leaves} {o : UOp} {t t' : Rel} (h : FinishOK σ o t
   ⟨h.wf, h.truthful, h.engine, fun _ => ⟨h.sem_eq, h.cols⟩, fun h => (by cases h), fun h => (by cases h),
    fun h => (by cases h), fun h => (by cases h)⟩
 
+theorem prefTargetsGood_of_iter (σ : Leaves) (pref : Engine) (hpk : pref.kind = .iter) :
+    (t : Rel) → t.prefTargetsGood σ pref
+  | .unary _ t _ => prefTargetsGood_of_iter σ pref hpk t
+  | .transfer _ _ t => ⟨fun _ hq => (by rw [hpk] at hq; cases hq), prefTargetsGood_of_iter σ pref hpk t⟩
+  | .leaf .. => trivial
+  | .binary .. => trivial
+  | .mat .. => trivial
+  | .select .. => trivial
+
 /-- **Back-tracking is sound** (iteration engines, unary operations): whatever
 `backtrack_unary(op, tree, preferred)` returns satisfies `BTok`. -/
-theorem backtrack_sound (σ : Leaves) (st : Store) (pref : Engine) (hpk : pref.kind = .iter) :
+theorem backtrack_sound (σ : Leaves) (st : Store) (pref : Engine) :
     (fuel : Nat) → (o : UOp) → (tree : Rel) → (res : Res) → (done : Bool) →
     tree.WF → tree.Truthful σ → o.wfOn tree.columns = true → (o.isProj = true → tree.spineNoDedup) →
+    tree.prefTargetsGood σ pref →
     backtrack st fuel (.u o) tree pref = .ok (res, done) → BTok σ o tree (res.get tree) done
-  | 0, o, tree, res, done, _, _, _, _, h => by rw [backtrack] at h; cases h
-  | fuel+1, o, tree, res, done, hwf, htr, hop, hnd, h => by
+  | 0, o, tree, res, done, _, _, _, _, _, h => by rw [backtrack] at h; cases h
+  | fuel+1, o, tree, res, done, hwf, htr, hop, hnd, hpo, h => by
     cases hk : tree.engine.kind with
     | sql =>
       rw [backtrack.eq_def] at h
@@ -567,22 +568,29 @@ theorem backtrack_sound (σ : Leaves) (st : Store) (pref : Engine) (hpk : pref.k
         have htrt : target.Truthful σ := htr
         have hopt : o.wfOn target.columns = true := hop
         have hndt : o.isProj = true → target.spineNoDedup := fun hp => hnd hp
+        have hpo' : (target.engine = pref → pref.kind = .sql → Good σ target) ∧ target.prefTargetsGood σ pref := hpo
         by_cases he : (target.engine == pref) = true
         · simp only [he, if_true] at h
-          have hkt : target.engine.kind = .iter := by rw [beq_iff_eq.mp he]; exact hpk
           cases happ : applyOp st fuel (.u o) target {} with
           | error e => simp [happ] at h
           | ok r =>
             simp only [happ] at h
             injection h with h; injection h with h1 h2; subst h2
-            have hfuel : ∃ k, fuel = k + 2 := by
-              match fuel, happ with
-              | 0, happ => rw [applyOp_fuel_zero] at happ; cases happ
-              | 1, happ => exact absurd happ (applyOp_fuel_one st o target r)
-              | k+2, _ => exact ⟨k, rfl⟩
-            obtain ⟨k, hk2⟩ := hfuel
-            subst hk2
-            have F := applyOp_iter_sound σ st k o target r hkt hwft htrt happ
+            have F : FinishOK σ o target (r.get target) := by
+              cases hpk : pref.kind with
+              | iter =>
+                have hkt : target.engine.kind = .iter := by rw [beq_iff_eq.mp he]; exact hpk
+                have hfuel : ∃ k, fuel = k + 2 := by
+                  match fuel, happ with
+                  | 0, happ => rw [applyOp_fuel_zero] at happ; cases happ
+                  | 1, happ => exact absurd happ (applyOp_fuel_one st o target r)
+                  | k+2, _ => exact ⟨k, rfl⟩
+                obtain ⟨k, hk2⟩ := hfuel
+                subst hk2
+                exact applyOp_iter_sound σ st k o target r hkt hwft htrt happ
+              | sql =>
+                -- the preferred engine is a SQL engine: the tree-building induction applies
+                exact ((treeBuild_sound σ st fuel).apply o target r (hpo'.1 (beq_iff_eq.mp he) hpk) happ).2.1
             have B := BTok.of_finish F
             rw [← h1]
             cases r with
@@ -599,7 +607,7 @@ theorem backtrack_sound (σ : Leaves) (st : Store) (pref : Engine) (hpk : pref.k
             obtain ⟨up, d⟩ := v
             simp only [hb] at h
             injection h with h; injection h with h1 h2; subst h2
-            have B := backtrack_sound σ st pref hpk fuel o target up d hwft htrt hopt hndt hb
+            have B := backtrack_sound σ st pref fuel o target up d hwft htrt hopt hndt hpo'.2 hb
             rw [← h1]
             cases up with
             | same =>
@@ -655,7 +663,7 @@ theorem backtrack_sound (σ : Leaves) (st : Store) (pref : Engine) (hpk : pref.k
           | ok v =>
             obtain ⟨up, d⟩ := v
             simp only [hb] at h
-            have ih := backtrack_sound σ st pref hpk fuel f target up d hwft htrt hfw hfnd hb
+            have ih := backtrack_sound σ st pref fuel f target up d hwft htrt hfw hfnd hpo hb
             cases up with
             | same =>
               simp only [Res.get] at ih
@@ -942,7 +950,7 @@ theorem backtrack_error (σ : Leaves) (st : Store) (pref : Engine) (hpk : pref.k
           | ok v =>
             obtain ⟨up, d⟩ := v
             simp only [hb] at h
-            have ih := backtrack_sound σ st pref hpk fuel f target up d hwft htrt hfw hfnd hb
+            have ih := backtrack_sound σ st pref fuel f target up d hwft htrt hfw hfnd (prefTargetsGood_of_iter σ pref hpk target) hb
             cases up with
             | same =>
               simp only [Res.get] at ih
@@ -1006,117 +1014,7 @@ theorem backtrack_error (σ : Leaves) (st : Store) (pref : Engine) (hpk : pref.k
                     simp only [g2, Bool.not_true, Bool.and_false, Bool.false_eq_true, if_false] at h
                     cases h
 
-/-! ### `UnaryOperation.apply` with preferred-engine options -/
 
-/-- `UnaryOperation.apply` for a `UOp`, written without mutable variables. -/
-def applyOpSpec (st : Store) (fuel : Nat) (o : UOp) (t : Rel) (opts : Opts) : Except Err Res :=
-  match o.beginApply t opts.pref with
-  | .error e => .error e
-  | .ok (o', pref) =>
-    let finish (base : Res) : Except Err Res :=
-      match appendUnary st fuel (.u o') (base.get t) with
-      | .error e => .error e
-      | .ok .same => .ok base
-      | .ok (.new x) => .ok (.new x)
-    if pref == t.engine then finish .same
-    else
-      let bt : Except Err (Res × Bool) :=
-        if opts.backtrack then backtrack st fuel (.u o') t pref else .ok (.same, false)
-      match bt with
-      | .error e => .error e
-      | .ok (r, true) => .ok r
-      | .ok (r, false) =>
-        if opts.transfer then
-          match transferTo st fuel pref (r.get t) with
-          | .error e => .error e
-          | .ok .same => finish r
-          | .ok (.new x) => finish (.new x)
-        else if opts.require then .error .engine
-        else finish r
-
-theorem applyOp_eq_spec (st : Store) (fuel : Nat) (o : UOp) (t : Rel) (opts : Opts) :
-    applyOp st (fuel+1) (.u o) t opts = applyOpSpec st fuel o t opts := by
-  rw [applyOp]
-  simp only [AnyOp.beginApply, bind, Except.bind, pure, Except.pure, Except.map, applyOpSpec]
-  cases hb : o.beginApply t opts.pref with
-  | error e => rfl
-  | ok v =>
-    obtain ⟨o', pref⟩ := v
-    simp only
-    by_cases he : pref = t.engine
-    · subst he
-      simp only [bne_self_eq_false, Bool.false_eq_true, if_false, beq_self_eq_true, if_true, Bool.not_false, Res.get]
-      cases appendUnary st fuel (AnyOp.u o') t with
-      | error e => rfl
-      | ok r => cases r <;> rfl
-    · have h1 : (pref != t.engine) = true := by simpa using he
-      have h2 : (pref == t.engine) = false := by simpa using he
-      simp only [h1, h2, if_true, Bool.false_eq_true, if_false]
-      cases hbt : opts.backtrack with
-      | false =>
-        simp only [Bool.false_eq_true, if_false, Bool.not_false, if_true, Res.get]
-        cases htr : opts.transfer with
-        | true =>
-          simp only [if_true]
-          cases transferTo st fuel pref t with
-          | error e => rfl
-          | ok r2 =>
-            cases r2 with
-            | same =>
-              simp only [Res.get]
-              cases appendUnary st fuel (AnyOp.u o') t with
-              | error e => rfl
-              | ok r => cases r <;> rfl
-            | new x =>
-              simp only [Res.get]
-              cases appendUnary st fuel (AnyOp.u o') x with
-              | error e => rfl
-              | ok r => cases r <;> rfl
-        | false =>
-          simp only [Bool.false_eq_true, if_false]
-          cases hrq : opts.require with
-          | true => rfl
-          | false =>
-            simp only [Bool.false_eq_true, if_false]
-            cases appendUnary st fuel (AnyOp.u o') t with
-            | error e => rfl
-            | ok r => cases r <;> rfl
-      | true =>
-        simp only [if_true]
-        cases backtrack st fuel (AnyOp.u o') t pref with
-        | error e => rfl
-        | ok v1 =>
-          obtain ⟨r1, d⟩ := v1
-          cases d with
-          | true => simp
-          | false =>
-            simp only [Bool.not_false, if_true]
-            cases htr : opts.transfer with
-            | true =>
-              simp only [if_true]
-              cases transferTo st fuel pref (r1.get t) with
-              | error e => rfl
-              | ok r2 =>
-                cases r2 with
-                | same =>
-                  simp only
-                  cases appendUnary st fuel (AnyOp.u o') (r1.get t) with
-                  | error e => rfl
-                  | ok r => cases r <;> rfl
-                | new x =>
-                  simp only [Res.get]
-                  cases appendUnary st fuel (AnyOp.u o') x with
-                  | error e => rfl
-                  | ok r => cases r <;> rfl
-            | false =>
-              simp only [Bool.false_eq_true, if_false]
-              cases hrq : opts.require with
-              | true => rfl
-              | false =>
-                simp only [Bool.false_eq_true, if_false]
-                cases appendUnary st fuel (AnyOp.u o') (r1.get t) with
-                | error e => rfl
-                | ok r => cases r <;> rfl
 
 theorem beginApply_cases' (op : UOp) (t : Rel) (pref : Option Engine) (op' : UOp) (e : Engine)
     (h : op.beginApply t pref = .ok (op', e)) :
@@ -1326,7 +1224,7 @@ theorem applyOp_sound (σ : Leaves) (st : Store) (fuel : Nat) (o : UOp) (t : Rel
         intro r1 d hr
         by_cases hbk : opts.backtrack = true
         · simp only [hbk, if_true] at hr
-          exact backtrack_sound σ st pref hprefk fuel o' t r1 d hwf htr ho'wf ho'nd hr
+          exact backtrack_sound σ st pref fuel o' t r1 d hwf htr ho'wf ho'nd (prefTargetsGood_of_iter σ pref hprefk t) hr
         · simp only [hbk, Bool.false_eq_true, if_false] at hr
           injection hr with hr; injection hr with h1 h2; subst h1; subst h2
           exact BTok.unchanged σ o' t hwf htr ho'wf
@@ -1480,7 +1378,7 @@ theorem applyOp_error (σ : Leaves) (st : Store) (fuel : Nat) (o : UOp) (t : Rel
       have B : BTok σ o' t (r1.get t) d := by
         by_cases hbk : opts.backtrack = true
         · simp only [hbk, if_true] at hbtv
-          exact backtrack_sound σ st pref hprefk fuel o' t r1 d hwf htr ho'wf ho'nd hbtv
+          exact backtrack_sound σ st pref fuel o' t r1 d hwf htr ho'wf ho'nd (prefTargetsGood_of_iter σ pref hprefk t) hbtv
         · simp only [hbk, Bool.false_eq_true, if_false] at hbtv
           injection hbtv with hbtv; injection hbtv with h1 h2; subst h1; subst h2
           exact BTok.unchanged σ o' t hwf htr ho'wf
